@@ -10,7 +10,7 @@
  *   - a request that directly addresses a protected attribute is answered by an Error Response with
  *     Insufficient Authentication (0x05) when no key exists and Insufficient Encryption (0x0F) otherwise.
  *
- * case parameters: CFG (0/1, see shims/att_c05.cpp), MODE
+ * case parameters: CFG (0/1/2, see shims/att_c05.cpp), MODE; H1/H2/H3 see below
  *   MODE 0  l2cap_input: one request, OPC and LEN concrete, every other byte symbolic
  *   MODE 1  Execute Write (0x18) on a symbolic, well-formed write queue (QN elements with QL data bytes each)
  *   MODE 2  l2cap_output: a queued notification / indication for a symbolic characteristic
@@ -183,6 +183,11 @@ void harness(void)
         in = vf_alloc(len);
         in_bytes(in, len);
         in[0] = (uint8_t)CASE(OPC);
+        /* optional further case split: H1, H2, H3 != 0 fix the first, second, third 16 bit field of the PDU (handles of Read Multiple,
+         * start / end handle of the range requests); 0 leaves the field symbolic */
+        if (CASE(H1) != 0 && len >= 3) { in[1] = (uint8_t)CASE(H1); in[2] = (uint8_t)(CASE(H1) >> 8); }
+        if (CASE(H2) != 0 && len >= 5) { in[3] = (uint8_t)CASE(H2); in[4] = (uint8_t)(CASE(H2) >> 8); }
+        if (CASE(H3) != 0 && len >= 7) { in[5] = (uint8_t)CASE(H3); in[6] = (uint8_t)(CASE(H3) >> 8); }
         if (len >= 3) handle = (uint16_t)(in[1] | (in[2] << 8));
     } else if (mode == 1) {
         /* Execute Write on a well-formed queue: QN elements [size16][handle16][offset16][QL data bytes] */
